@@ -432,6 +432,15 @@ def run(ctx):
         idi = []
         for g in reach:
             idi += [r for r in (fn(g.node) for fn in IDIOMS) if r]
+        # and on the canonical form of the allocator (helpers of the module inlined, pipelines as loops)
+        from sa.inline import expand as _exp6
+
+        try:
+            canon_ = _exp6(prog, f, depth=3, local_only=True)
+        except Exception:  # noqa: BLE001
+            canon_ = None
+        if canon_ is not None:
+            idi += [r for r in (fn(canon_) for fn in IDIOMS) if r]
         if q.endswith(".max_shape_id") and any(isinstance(n, ast.Call) and dotted(n.func) == "max" for g in reach for n in ast.walk(g.node)):
             idi = ["population maximum (consumed by _next_shape_id as max+1)"]
         def _has(m):
